@@ -143,29 +143,25 @@ class Check:
             p = self.write_replay(safe, {"property": self.pid, "key": v["key"], "what": v["what"], "replay": v["replay"]})
             out.append(f"VIOLATION property={self.pid} replay={p}")
             reported += 1
-        # broken obligations / correspondences with no concrete failing input
-        unexplained = [b for b in self.broken if not any(b in (v.get("replay") or {}).get("explains", []) for v in self.violations)]
-        if unexplained and reported == 0 and not seen_known:
-            p = self.write_replay(
-                "no_failing_input",
-                {
-                    "property": self.pid,
-                    "no_longer_checks": unexplained,
-                    "obligations": [o for o in self.obligations if not o["ok"]],
-                    "correspondence": {k: v for k, v in self.corr.items() if v["disagreements"]},
-                    "note": "a proof obligation or the model/code correspondence broke and the search found no failing input on the real code",
-                },
-            )
-            out.append(f"VIOLATION property={self.pid} replay={p} no-failing-input-found")
-            reported += 1
-        elif unexplained and reported == 0 and seen_known:
-            # broken only because of known findings? only if every broken item is attributed to a known finding
+        # broken obligations / correspondences with no concrete failing input: a concrete (non-known) violation explains
+        # them; a known finding only explains what its `breaks` list names
+        if self.broken and reported == 0:
             attributed = set()
             for k in known:
-                attributed.update(k.get("breaks", []))
-            rest = [b for b in unexplained if b not in attributed]
+                if k["key"] in seen_known:
+                    attributed.update(k.get("breaks", []))
+            rest = [b for b in self.broken if b not in attributed]
             if rest:
-                p = self.write_replay("no_failing_input", {"property": self.pid, "no_longer_checks": rest})
+                p = self.write_replay(
+                    "no_failing_input",
+                    {
+                        "property": self.pid,
+                        "no_longer_checks": rest,
+                        "obligations": [o for o in self.obligations if not o["ok"]],
+                        "correspondence": {k: v for k, v in self.corr.items() if v["disagreements"]},
+                        "note": "a proof obligation or the model/code correspondence broke and the search found no failing input on the real code",
+                    },
+                )
                 out.append(f"VIOLATION property={self.pid} replay={p} no-failing-input-found")
                 reported += 1
         n_obl = len(self.obligations)
